@@ -4,11 +4,10 @@ namespace RsslVerif.Lemmas.ConstBinop
 open RsslVerif.Gen.RankTable RsslVerif.Gen.TypingTables RsslVerif.Model.ConstBinop
 open RsslVerif.Spec
 
-/-- pairs on which the pinned code does not choose the specified type (see `Thm.C13.binop_common_type_as_specified_partial`) -/
+/-- pairs on which the pinned code does not choose the specified type (see `Thm.C13.binop_common_type_as_specified_partial`):
+    an untyped integer literal next to a `bool` -/
 def deviates (l r : OpShape) : Bool :=
-  let one (a b : OpShape) : Bool :=
-    (a = .scalar .intLiteral ∧ (b = .scalar .bool ∨ b = .enumInt ∨ b = .enumUInt)) ∨
-    (a = .enumUInt ∧ (b = .scalar .bool ∨ b = .scalar .int32))
+  let one (a b : OpShape) : Bool := a = .scalar .intLiteral ∧ b = .scalar .bool
   one l r || one r l
 
 theorem binOp_mem_all (b : BinOp) : b ∈ BinOp.all := by cases b <;> decide
@@ -24,19 +23,34 @@ theorem commonTy_table :
       HlslUsualConv.sameEnum l r = true → deviates l r = false → commonTy op l r = HlslUsualConv.commonTy op l r := by
   decide +kernel
 
-/-- on the excluded literal pairs the code converts the typed operand *to the untyped literal kind* (a conversion the
-    constant folder has no rule for and the front end refuses for enums): never another typed kind -/
-theorem commonTy_literal_pairs :
-    ∀ op ∈ BinOp.all, ∀ s ∈ [OpShape.scalar .bool, .enumInt, .enumUInt], ∀ t, 
-      (commonTy op (.scalar .intLiteral) s = some t ∨ commonTy op s (.scalar .intLiteral) = some t) →
+/-- an enum operand next to any other operand (of another kind, or of the same enum): the specified type, no exception -/
+theorem commonTy_enum_table :
+    ∀ op ∈ BinOp.all, ∀ e ∈ [OpShape.enumInt, .enumUInt], ∀ s ∈ OpShape.all,
+      HlslUsualConv.sameEnum e s = true →
+      commonTy op e s = HlslUsualConv.commonTy op e s ∧ commonTy op s e = HlslUsualConv.commonTy op s e := by
+  decide +kernel
+
+/-- next to an operand that is not an enum, an enum behaves exactly as a value of its underlying type would -/
+theorem commonTy_enum_underlying_table :
+    ∀ op ∈ BinOp.all, ∀ e ∈ [OpShape.enumInt, .enumUInt], ∀ s ∈ OpShape.all, s.isEnum = false →
+      commonTy op e s = commonTy op e.underlying s ∧ commonTy op s e = commonTy op s e.underlying := by
+  decide +kernel
+
+/-- on the excluded pair (untyped integer literal, `bool`) the code converts the `bool` *to the untyped literal kind* (a
+    conversion the constant folder has no rule for): never a typed kind -/
+theorem commonTy_literal_bool :
+    ∀ op ∈ BinOp.all, ∀ t,
+      (commonTy op (.scalar .intLiteral) (.scalar .bool) = some t ∨ commonTy op (.scalar .bool) (.scalar .intLiteral) = some t) →
       t = .scalar .intLiteral ∨ (op.shortCircuit = true ∧ t = .scalar .bool) := by
-  intro op hop s hs t
-  have key : ∀ op ∈ BinOp.all, ∀ s ∈ [OpShape.scalar .bool, .enumInt, .enumUInt],
-      (commonTy op (.scalar .intLiteral) s = none ∨ commonTy op (.scalar .intLiteral) s = some (.scalar .intLiteral) ∨
-        (op.shortCircuit = true ∧ commonTy op (.scalar .intLiteral) s = some (.scalar .bool))) ∧
-      (commonTy op s (.scalar .intLiteral) = none ∨ commonTy op s (.scalar .intLiteral) = some (.scalar .intLiteral) ∨
-        (op.shortCircuit = true ∧ commonTy op s (.scalar .intLiteral) = some (.scalar .bool))) := by decide +kernel
-  have k := key op hop s hs
+  intro op hop t
+  have key : ∀ op ∈ BinOp.all,
+      (commonTy op (.scalar .intLiteral) (.scalar .bool) = none ∨
+        commonTy op (.scalar .intLiteral) (.scalar .bool) = some (.scalar .intLiteral) ∨
+        (op.shortCircuit = true ∧ commonTy op (.scalar .intLiteral) (.scalar .bool) = some (.scalar .bool))) ∧
+      (commonTy op (.scalar .bool) (.scalar .intLiteral) = none ∨
+        commonTy op (.scalar .bool) (.scalar .intLiteral) = some (.scalar .intLiteral) ∨
+        (op.shortCircuit = true ∧ commonTy op (.scalar .bool) (.scalar .intLiteral) = some (.scalar .bool))) := by decide +kernel
+  have k := key op hop
   rintro (h | h)
   · rcases k.1 with k | k | ⟨k1, k2⟩
     · rw [k] at h; cases h
